@@ -241,6 +241,9 @@ func (R *Renderer) render(v ssa.Value) string {
 	case *ssa.Parameter:
 		for i, p := range x.Parent().Params {
 			if p == x {
+				if pl := paramAlias[x.Parent()]; pl != nil && i < len(pl.terms) {
+					return pl.terms[i]
+				}
 				return fmt.Sprintf("$%d", i)
 			}
 		}
@@ -613,6 +616,14 @@ func (R *Renderer) call(x *ssa.Call) string {
 		return b.Name() + "(" + strings.Join(args, ",") + ")"
 	}
 	if f := cc.StaticCallee(); f != nil {
+		if w, ps, ok := asBaselineWrapper(R, cc); ok {
+			return w + "(" + strings.Join(ps, ",") + ")"
+		}
+		if paramAlias[f] != nil {
+			if la := liftedArgs(f, cc.Args, R.V, liftRecv[f]); la != nil {
+				args = la
+			}
+		}
 		if tmpl, ok := pureValue(f); ok && f != R.fn {
 			return substParams(tmpl, args)
 		}
@@ -928,8 +939,68 @@ func neAtom(a, b string) string {
 func isNilAtom(a string) string  { return eqAtom(a, "nil") }
 func notNilAtom(a string) string { return neAtom(a, "nil") }
 
+// strLenTest: `len(s) > 0`, `len(s) != 0`, `len(s) >= 1`, `len(s) == 0` ... on a string s is the
+// comparison of s with "" (normal form of `s != ""` / `s == ""`).
+func (R *Renderer) strLenTest(x *ssa.BinOp) (Atom, bool) {
+	lenArg := func(v ssa.Value) ssa.Value {
+		c, ok := v.(*ssa.Call)
+		if !ok {
+			return nil
+		}
+		b, ok := c.Call.Value.(*ssa.Builtin)
+		if !ok || b.Name() != "len" || len(c.Call.Args) != 1 {
+			return nil
+		}
+		if bt, ok := c.Call.Args[0].Type().Underlying().(*types.Basic); ok && bt.Info()&types.IsString != 0 {
+			return c.Call.Args[0]
+		}
+		return nil
+	}
+	intc := func(v ssa.Value) (int64, bool) {
+		c, ok := v.(*ssa.Const)
+		if !ok || c.Value == nil || c.Value.Kind() != constant.Int {
+			return 0, false
+		}
+		return c.Int64(), true
+	}
+	op := x.Op
+	sv := lenArg(x.X)
+	k, ok := intc(x.Y)
+	if sv == nil || !ok {
+		// constant on the left: mirror
+		sv = lenArg(x.Y)
+		k, ok = intc(x.X)
+		if sv == nil || !ok {
+			return Atom{}, false
+		}
+		switch op {
+		case token.GTR:
+			op = token.LSS
+		case token.LSS:
+			op = token.GTR
+		case token.GEQ:
+			op = token.LEQ
+		case token.LEQ:
+			op = token.GEQ
+		}
+	}
+	empty := Atom{Op: "==0", L: canonEq(Lin{T: map[string]int64{`""`: 1, R.V(sv): -1}})}
+	switch {
+	case (op == token.EQL && k == 0) || (op == token.LSS && k == 1) || (op == token.LEQ && k == 0):
+		return empty, true
+	case (op == token.NEQ && k == 0) || (op == token.GTR && k == 0) || (op == token.GEQ && k == 1):
+		return empty.Neg(), true
+	}
+	return Atom{}, false
+}
+
 // CondAtom normalises a boolean SSA value into the atom that holds when it is true.
 func (R *Renderer) CondAtom(v ssa.Value) Atom {
+	if bo, ok := v.(*ssa.BinOp); ok {
+		if a, ok := R.strLenTest(bo); ok {
+			return a
+		}
+	}
 	switch x := v.(type) {
 	case *ssa.UnOp:
 		if x.Op == token.NOT {
